@@ -1,4 +1,5 @@
-import DoitModel.Proofs.LoadAccept
+import DoitModel.Proofs.LoadGroups3
+import DoitModel.Proofs.LoadOrder
 /-! # C18 — loading maps task-creators to a well-formed, validated task set
 
 Property theorems only (model: `Model/Load.lean`; helpers: `Proofs/Load*.lean`).
@@ -49,14 +50,6 @@ theorem crash_unhashable_basename :
 
 /-! ## well-formedness of an accepted task set -/
 
-/-- the names of the sub-tasks of `b`, in list (= yield) order -/
-def subsOf (b : Name) (ts : List Task) : List Name := (ts.filter (fun t => t.subtaskOf == some b)).map (·.name)
-
-/-- every sub-task is attached to a group task that depends on all sub-tasks of that group in yield order -/
-def GroupsWF (ts : List Task) : Prop :=
-  ∀ t ∈ ts, ∀ b, t.subtaskOf = some b →
-    ∃ g ∈ ts, g.name = b ∧ g.hasSubtask = true ∧ List.Sublist (subsOf b ts) g.taskDep
-
 def RefsExist (ts : List Task) : Prop :=
   ∀ t ∈ ts, (∀ n ∈ t.taskDep, n ∈ ts.map (·.name)) ∧ (∀ n ∈ t.setupTasks, n ∈ ts.map (·.name)) ∧
     (∀ n ∈ t.calcDep, n ∈ ts.map (·.name))
@@ -68,8 +61,10 @@ def wellformed_full : Prop :=
 /-- Proved part of `wellformed_full`, for every input: names pairwise distinct, every name in `task_dep`
     (after wild-card expansion and implicit dependencies), `setup_tasks` (which include the `getargs` tasks, see
     `references_are_checked`) and `calc_dep` is the name of a loaded task, targets pairwise distinct.
-    Missing: `GroupsWF` — false on the current code when a generator yields a `name: None` dict or a Task object
-    whose name it has already defined (open finding yield-replaces-task, `wellformed_counterexample`). -/
+    Missing: `GroupsWF` (every sub-task attached to a group task that depends on all its sub-tasks in yield order;
+    `Proofs/LoadGroups3.lean`) — proved under `Tidy` in `wellformed_groups_partial`, false on the current code when a
+    generator yields a `name: None` dict or a Task object whose name it has already defined (open finding
+    yield-replaces-task, `wellformed_counterexample`). -/
 theorem wellformed_partial (cmds : List Name) (cs : List Creator) (ts : List Task) (h : load cmds cs = .tasks ts) :
     (ts.map (·.name)).Nodup ∧ RefsExist ts ∧ (ts.flatMap (·.targets)).Nodup := by
   obtain ⟨ts0, _, hc⟩ := load_tasks_split cmds cs ts h
@@ -102,6 +97,56 @@ theorem wellformed_partial (cmds : List Name) (cs : List Creator) (ts : List Tas
       exact map_extends_targets _ _ (fun t => extends_addImplicit _ t)
     rw [this]
     exact (nodupB_iff _).mp h3
+
+
+/-- Proved part of the group clause: when no generator replaces a task it has already defined and the Task objects
+    handed over by creators are not marked as sub-task / group by hand (`Tidy`, decidable), every `basename:name`
+    sub-task of an accepted load is attached to a group task named `basename` with `has_subtask`, and the sub-tasks of
+    that group, in yield order, form a subsequence of the group's `task_dep`.
+    Missing for the full clause: exactly the replacing yields (`wellformed_counterexample`). -/
+theorem wellformed_groups_partial (cmds : List Name) (cs : List Creator) (ts : List Task) (ht : Tidy cs = true)
+    (h : load cmds cs = .tasks ts) : GroupsWF ts := by
+  obtain ⟨ts0, hl, hc⟩ := load_tasks_split cmds cs ts h
+  obtain ⟨_, hgen⟩ := loadTasks_ok cmds cs ts0 hl
+  obtain ⟨h1, _, _, _⟩ := control_ok ts0 ts hc
+  obtain ⟨f, hf, hmap⟩ := control_extends ts0 ts hc
+  rw [hmap]
+  apply groupsWF_map_extends ts0 f hf
+  apply generateAll_groupsWF (sortByLine cs) ts0 _ hgen ((nodupB_iff _).mp h1)
+  intro c hc'
+  have := List.all_eq_true.mp (by simpa [Tidy] using ht) c ((mem_sortByLine cs c).mp hc')
+  exact this
+
+/-- definition order: the loaded task names are the concatenation of the creators' own task lists, creators taken
+    in the order of their definition lines -/
+theorem definition_order (cmds : List Name) (cs : List Creator) (ts : List Task) (h : load cmds cs = .tasks ts) :
+    ∃ parts, PartsOf (sortByLine cs) parts ∧ ts.map (·.name) = parts.flatten.map (·.name) := by
+  obtain ⟨ts0, hl, hc⟩ := load_tasks_split cmds cs ts h
+  obtain ⟨_, hgen⟩ := loadTasks_ok cmds cs ts0 hl
+  obtain ⟨parts, hp, hflat⟩ := generateAll_parts _ ts0 hgen
+  obtain ⟨f, hf, hmap⟩ := control_extends ts0 ts hc
+  exact ⟨parts, hp, by rw [hmap, map_extends_names ts0 f hf, hflat]⟩
+
+/-- `sortByLine` is a stable sort by definition line: a permutation, ascending, and creators defined on the same
+    line keep their namespace order -/
+theorem creators_sorted_stably (cs : List Creator) :
+    (sortByLine cs).Perm cs ∧ SortedByLine (sortByLine cs) ∧
+    ∀ n, (sortByLine cs).filter (fun c => c.line == n) = cs.filter (fun c => c.line == n) :=
+  ⟨sortByLine_perm cs, sortByLine_sorted cs, sortByLine_stable cs⟩
+
+/-- inside one generator the tasks come in yield order, a group task standing where its first sub-task (or its
+    attribute dict) was yielded: `f`, `f:b`, `f:a` for yields `b`, `a` -/
+example :
+    load [] [⟨[102], 1, .gen [.leaf (.dict (actionsOnly ++ [(.name, .str [98])]) [] []),
+                              .leaf (.dict (actionsOnly ++ [(.name, .str [97])]) [] [])]⟩]
+      = .tasks [{ name := [102], taskDep := [[102, 58, 98], [102, 58, 97]], wildDep := [], setupTasks := [],
+                  calcDep := [], targets := [], fileDep := [], subtaskOf := none, hasSubtask := true },
+                { name := [102, 58, 98], taskDep := [], wildDep := [], setupTasks := [], calcDep := [], targets := [],
+                  fileDep := [], subtaskOf := some [102], hasSubtask := false },
+                { name := [102, 58, 97], taskDep := [], wildDep := [], setupTasks := [], calcDep := [], targets := [],
+                  fileDep := [], subtaskOf := some [102], hasSubtask := false }] ∧
+    Tidy [⟨[102], 1, .gen [.leaf (.dict (actionsOnly ++ [(.name, .str [98])]) [] []),
+                           .leaf (.dict (actionsOnly ++ [(.name, .str [97])]) [] [])]⟩] = true := by decide
 
 /-- a generator yields sub-task `s`, then `{'name': None}`: the group task is replaced and no longer depends on `f:s` -/
 theorem wellformed_counterexample : ¬ wellformed_full := by
